@@ -293,8 +293,16 @@ def second_model_cases(tier):
     corpus = H.prebuild_corpus(tier='quick')
     picked = corpus[:: max(1, len(corpus) // (12 if tier == 'quick' else 60))]
     out = []
+    # The model prebuilt first always holds a program touching every kind of type, enumerator, constant and class the
+    # host offers, followed by one of the picked programs: whatever the second program uses has been used before in the
+    # other model (the pairs used to overlap by accident only, and the detection of C06-4 was lost when the corpus grew)
+    rich = [H.ASSIGN('q1', H.I(1)), H.ASSIGN('q2', H.STR), H.ASSIGN('q3', H.TRUE), H.ASSIGN('q4', ('real', '1.5')),
+            H.ASSIGN('q5', H.RED), H.ASSIGN('q6', H.TEN), H.ASSIGN('q7', ('enum', 'Mode', 'Off')), H.ASSIGN('q8', ('enum', 'L', 'TEN')),
+            ('selfrom', 'any', 'q9', 'A', None, True), ('selfrom', 'many', 'q10', 'A', None, True),
+            ('selfrom', 'any', 'q11', 'B', None, True), H.ASSIGN('q12', H.F('q9', 'Num'))]
     for i, (name, stmts) in enumerate(picked):
-        out.append(dict(first=picked[(i + 1) % len(picked)][1], second=stmts))
+        out.append(dict(first=rich + list(picked[(i + 1) % len(picked)][1]), second=stmts))
+        out.append(dict(first=picked[(i + 1) % len(picked)][1], second=rich + list(stmts)))
     return out
 
 
